@@ -240,7 +240,19 @@ def builtin_call(ex, name, e, env):
     if name in ("copy",):
         return copy_model(ex, A(0), e)
     if name == "deepcopy":
+        if len(e.args) > 1:
+            # deepcopy(x, memo) with memo = {id(obj): obj, ...}: the listed objects are not copied, the copy refers to them (how the circuit rewrites keep
+            # Parameter objects shared)
+            m = ex.deref(A(1))
+            if not isinstance(m, CDict) or not all(isinstance(k, int) and isinstance(v, Ref) and k == v.id for k, v in m.items):
+                raise Unsupported("deepcopy with a memo that is not {id(obj): obj}")
+            return deepcopy_model(ex, A(0), e, {k: v for k, v in m.items})
         return deepcopy_model(ex, A(0), e)
+    if name == "id" and name not in env:
+        v = A(0)
+        if isinstance(v, Ref):
+            return v.id            # identity of a heap object: its (concrete) reference number
+        raise Unsupported("id() of a non-object")
     if name == "list":
         if not e.args:
             return ex.alloc(CList(()))
